@@ -331,6 +331,47 @@ produces, given the callback invocations -/
 def responses (fired : List Fired) : List Bool :=
   (fired.foldl (fun l f => l.sendResponse f.arg) Leaf.init).sent
 
+/-! ### one task request on the leaf node (query/task_handler.go, query/leaf_processor.go)
+
+`TaskHandler.process` hands the request to its task pool; the task calls
+`leafTaskProcessor.Process`. A response is sent at exactly these sites: the pipeline's completion
+callback (`LeafExecuteContext.SendResponse` for a data search, `stream.Send` for a metadata suggest),
+`TaskHandler.process` when `Process` returns an error, and the task's panic handler. -/
+
+/-- what happens to a request -/
+inductive LeafReq where
+  /-- `Process` returns an error before any pipeline exists (unreadable plan / statement, node not in
+  the plan, unknown database): `TaskHandler.process` answers -/
+  | refused
+  /-- a request type `Process` does not dispatch (`default: … return nil`): nobody answers -/
+  | omitted
+  /-- the task pool does not accept the request (stopped pool / cancelled context) -/
+  | rejected
+  /-- `processDataSearch` / `processMetadataSuggest` execute a pipeline; `tolerated`: the stages fail
+  with a not-found error, which the metadata callback answers as an empty result without error -/
+  | run (tolerated : Bool) (root : Stage)
+
+structure ReqCfg where
+  /-- regenerated fact: `processDataSearch` / `processMetadataSuggest` return something else than `nil`
+  after the pipeline was executed, i.e. `TaskHandler.process` answers an error the completion
+  callback has already answered (`false` = the source as it is) -/
+  processReturnsPipelineErr : Bool
+  /-- regenerated fact `submitRejectNotifies` -/
+  rejectNotifies : Bool
+
+/-- the responses of a request whose pipeline ended in state `s` (`true` = error response) -/
+def runResponses (rc : ReqCfg) (tolerated : Bool) (s : State) : List Bool :=
+  let cb := responses s.sh.fired
+  (if tolerated then cb.map (fun _ => false) else cb) ++
+    (if rc.processReturnsPipelineErr && !tolerated && s.sh.fired.any (·.arg) then [true] else [])
+
+/-- the responses of a request that never reaches a pipeline -/
+def noPipelineResponses (rc : ReqCfg) : LeafReq → List Bool
+  | .refused => [true]
+  | .omitted => []
+  | .rejected => if rc.rejectNotifies then [true] else []
+  | .run _ _ => []
+
 /-! ### the source step orders the instructions stand for
 
 The fact extractor (`harness/internal/extract/facts_c19.go`) re-reads these from /repo on every run
@@ -411,5 +452,22 @@ def rejectOrder : Bool → List String
 def sendResponseOrder : List String :=
   ["if ctx.completed.CompareAndSwap(false, true)", "then:then:ctx.sendResponse(nil, err)",
    "then:then:ctx.sendResponse(nil, err)", "then:ctx.sendResponse(resultSet, nil)"]
+
+
+/-- `leafTaskProcessor.Process` (returns, dispatch on the request type) -/
+def leafProcessOrder : List String :=
+  ["if err != nil", "then:return fmt.Errorf(\"%w: %s\", ErrUnmarshalPlan, err)", "then:return fmt.Errorf(\"%w, i: %s am not a leaf node\", ErrBadPhysicalPlan, p.currentNodeID)", "then:return fmt.Errorf(\"%w: %s\", ErrNoDatabase, physicalPlan.Database)", "switch req.RequestType", "case protoCommonV1.RequestType_Data:", "case:p.processDataSearch(ctx, db, req, curLeaf, physicalPlan.Receivers)", "case:if err != nil", "case:then:return err", "case protoCommonV1.RequestType_Metadata:", "case:p.processMetadataSuggest(ctx, db, curLeaf.ShardIDs, req, stream)", "case:if err != nil", "case:then:return err", "default:", "case:return nil", "return nil"]
+
+/-- `leafTaskProcessor.processDataSearch`: the callback answers, the function returns `nil` -/
+def leafProcessDataSearchOrder : List String :=
+  ["if err != nil", "then:return ErrUnmarshalQuery", "newExecutePipelineFn(tracker, (func(err error) literal))", "λ1:leafExecuteCtx.SendResponse(err)", "pipeline.Execute(stage.NewMetadataLookupStage(leafExecuteCtx))", "return nil"]
+
+/-- `leafTaskProcessor.processMetadataSuggest`: the callback answers, the function returns `nil` -/
+def leafProcessMetadataSuggestOrder : List String :=
+  ["if err != nil", "then:return ErrUnmarshalSuggest", "newExecutePipelineFn(trackerpkg.NewStageTracker(ctx), (func(err error) literal))", "λ1:if err != nil && !errors.Is(err, constants.ErrNotFound)", "λ1:stream.Send(&protoCommonV1.TaskResponse{…})", "λ1:if err != nil", "pipeline.Execute(stage.NewMetadataSuggestStage(leafExecuteCtx))", "return nil"]
+
+/-- `TaskHandler.process`: pool hand-over; answers a `Process` error; the panic handler answers -/
+def taskHandlerProcessOrder : List String :=
+  ["q.taskPool.Submit(taskCtx.Ctx, concurrent.NewTask((func() literal), (func(err error) literal)))", "λ1:q.processor.Process(taskCtx, stream, req)", "λ1:if err != nil", "λ1:then:stream.Send(&protoCommonV1.TaskResponse{…})", "λ2:stream.Send(&protoCommonV1.TaskResponse{…})"]
 
 end LinVerif.Pipeline
